@@ -117,6 +117,9 @@ func pickOffset(r *gen.Rng, size int64) int64 {
 func runRead(c *run.Case, w *run.Worker, r *gen.Rng, sp *readSpec, quiet bool) {
 	be := newBackend("backend")
 	pool := newPool(r)
+	if quiet {
+		pool = poolByIndex(0)
+	}
 	srv := grpcservers.NewByteStreamServer(be, sp.chunkSize, pool)
 	if sp.present {
 		be.Store.Set(sp.obj.d, sp.plan.data)
